@@ -82,6 +82,21 @@ def cases(rng, tier, feats, drv_ok):
         # consistent re-declarations: the extreme value is made to pass the checks that precede the loop it drives
         for nq in [48, 49, 1 << 16, 1 << 40, P - 1] + [(k << w) + q for w in (32, 64, 128) for k in (1, 3) for q in (1, 10, 48)]:
             out.append({'line': b.line(PL.setp(b.v, I['cfg.n_queries'], (), nq), sec=0), 'kind': 'redeclared:n_queries', 'name': b.name, 'pos': hex(nq)})
+        # PAIRS: a loop bound may be derived from a SECOND field (a cap scaled by the blow-up, a size scaled by a step ...): every blow-up
+        # exponent 1..16, re-declared consistently WITHOUT touching what the transcript hashes (same trace size, same FRI steps and last
+        # layer: only the heights move), each with a huge query count
+        for c in range(1, 17):
+            v0 = copy.deepcopy(b.v); t0 = v0[I['cfg.log_trace_domain_size']]; lis = t0 + c
+            v0[I['cfg.log_n_cosets']] = c
+            for k in ('cfg.traces.original', 'cfg.traces.interaction', 'cfg.composition'):
+                v0[I[k]][0][1] = lis
+            v0[I['cfg.fri.log_input_size']] = lis
+            h = lis; inner = []
+            for st, row in zip(v0[I['cfg.fri.fri_step_sizes']][1:], v0[I['cfg.fri.inner_layers']]):
+                h -= st; inner.append([row[0], h, row[2]])
+            v0[I['cfg.fri.inner_layers']] = inner
+            for nq in ([1 << 24, 1 << 40] if tier == 'quick' else [49, 97, 1 << 16, 1 << 24, 1 << 40, (1 << 64) + 7]):
+                out.append({'line': b.line(PL.setp(v0, I['cfg.n_queries'], (), nq), sec=0), 'kind': 'redeclared:blowup x n_queries', 'name': b.name, 'pos': f'c={c},nq={hex(nq)}'})
         for t in [1, 20, 40, 60, 71]:
             for c in [1, 16]:
                 v = redeclared(b, t, c)
